@@ -489,6 +489,9 @@ def exc_feature(exc):
 ALPHABET = ['a', ' ', ',', '"', '[', ']', '(', ';', '\n', '<', '&', 'é']
 
 
+INTERIOR_SPECIALS = ['\u2028', '\u2029', '\x85', '\t', '\u00a0', '\u3000', '\ufeff', "'", '\\', '|', '\u200b']
+
+
 def stripped_strings(max_len):
     out = []
     for n in range(0, max_len + 1):
@@ -596,6 +599,12 @@ def run_value_codec(tier, seed):
         for b in s3:
             for c in s3:
                 evaluate((a, b, c))
+    # characters that are not in the small alphabet but are special to line-oriented text handling
+    # (str.splitlines / csv / XML whitespace): placed in the interior of a value, alone and with neighbours
+    for ch in INTERIOR_SPECIALS:
+        mid = 'a' + ch + 'b'
+        for vs in ((mid,), (mid, 'c'), ('c', mid), ('[' + mid + ']',), (mid, mid), ('c', mid, 'd')):
+            evaluate(vs)
     # random extension: 3..4 values of length <= 3
     rnd = random.Random(seed)
     pool = stripped_strings(3)
